@@ -104,6 +104,19 @@ static inline void vf_canon(vf_str *o, const vf_live *L)
     }
 }
 
+/* size of the string token (a field name) that starts at offset off of the live buffer, 0 if there is none */
+static inline size_t vf_name_token_size_at(const vf_live *L, size_t off)
+{
+    const uint8_t *b = vf_live_bufptr(L);
+    if (off >= L->len || b[off] < 0x14 || b[off] > 0x16) return 0;
+    size_t w = (size_t) 1 << (b[off] & 3);
+    if (off + 1 + w > L->len) return 0;
+    uint64_t l = 0;
+    for (size_t i = 0; i < w; i++) l |= (uint64_t) b[off + 1 + i] << (8 * i);
+    if (l > L->len) return 0;
+    return 1 + w + (size_t) l;
+}
+
 static inline const char *vf_err_name(int e)
 {
     static const char *const n[] = { "NONE", "RANGE", "FORMAT", "EOF", "END_OF_BLOCK", "NULL", "STATE", "WRONG_TYPE", "MAX_DEPTH_OBJECT", "MAX_DEPTH_ARRAY" };
